@@ -1,4 +1,126 @@
-import PysnarkModel.Model.Prog
+import PysnarkModel.Lemmas.Array
+import PysnarkModel.Lemmas.OblVal
+/-!
+# C15 — secret-index array access reads and writes exactly one element
+
+One-dimensional arrays (`pysnark/array.py`, `Array.__getitem__/__setitem__`) whose elements are plain
+ints or `LinComb`s (`Val.isNum`); `Val.ival` is the Python-level integer of an element.
+
+* `C15_read` / `C15_write`: with error checks on, an accepted access has its index in range; the read
+  returns (a `LinComb` with) the value of the indexed element; the write changes the indexed element
+  to the new value and leaves the value of every other element alone.  (No hypothesis on the guard
+  is needed for these value statements.)
+* `C15_oob_raises`: an out-of-range secret index raises `IndexError`; `C15_plain_index`: plain-int
+  indices follow Python list semantics (negative indices count from the end).
+* `C15_oob_unsat`: in-circuit, for ANY assignment satisfying the emitted constraints the index
+  evaluates to some position of the array — an out-of-range index cannot be proven — and
+  `C15_read_sound`: the result then evaluates to the element at that position.
+* `C15_oblivious`: the constraints emitted do not depend on the index (nor on any value).
+-/
 namespace Pysnark
-example : True := trivial
+
+/-- **read**: index in range, result is a `LinComb` carrying the indexed element's value -/
+theorem C15_read {arr : List Val} {it : LinComb} {r : Val} {s s' : St}
+    (hi : s.ignoreErrors = false) (harr : ∀ v ∈ arr, v.isNum = true)
+    (h : arrayGet arr (.lc it) s = .ok (r, s')) :
+    0 ≤ it.value ∧ it.value < arr.length ∧ (∃ y, r = .lc y) ∧
+    ∃ (hj : it.value.toNat < arr.length), r.ival = arr[it.value.toNat].ival :=
+  arrayGet_value hi harr h
+
+/-- **write**: same length; position `it.value` takes the value of `v`; all others keep theirs -/
+theorem C15_write {arr arr' : List Val} {it : LinComb} {v : Val} {s s' : St}
+    (hi : s.ignoreErrors = false) (harr : ∀ a ∈ arr, a.isNum = true) (hv : v.isNum = true)
+    (h : arraySet arr (.lc it) v s = .ok (arr', s')) :
+    0 ≤ it.value ∧ it.value < arr.length ∧ arr'.length = arr.length ∧
+    ∀ (j : Nat) (h1 : j < arr.length) (h2 : j < arr'.length),
+      arr'[j].isNum = true ∧ arr'[j].ival = if (j : Int) = it.value then v.ival else arr[j].ival :=
+  arraySet_value hi harr hv h
+
+/-- **out-of-range secret index raises `IndexError`** (reads and writes) -/
+theorem C15_oob_raises {arr : List Val} {it : LinComb} {v : Val} {s : St} (hi : s.ignoreErrors = false)
+    (h : it.value < 0 ∨ it.value ≥ arr.length) :
+    arrayGet arr (.lc it) s = .error .index ∧ arraySet arr (.lc it) v s = .error .index :=
+  ⟨arrayGet_oob hi h, arraySet_oob hi h⟩
+
+/-- plain-int indices: Python list semantics (`0 ≤ i < n` ↦ `i`, `-n ≤ i < 0` ↦ `n + i`, otherwise
+`IndexError`); the state is not touched -/
+theorem C15_plain_index {arr : List Val} {i : Int} {v : Val} {s : St} :
+    (0 ≤ i ∧ i < arr.length → pyIndex arr.length i = some i.toNat) ∧
+    (i < 0 ∧ -i ≤ arr.length → pyIndex arr.length i = some (arr.length - (-i).toNat)) ∧
+    (i ≥ arr.length ∨ i < -(arr.length : Int) → pyIndex arr.length i = Option.none) ∧
+    (∀ k, pyIndex arr.length i = some k → ∀ (hk : k < arr.length),
+      arrayGet arr (.int i) s = .ok (arr[k], s) ∧ arraySet arr (.int i) v s = .ok (arr.set k v, s)) ∧
+    (pyIndex arr.length i = Option.none →
+      arrayGet arr (.int i) s = .error .index ∧ arraySet arr (.int i) v s = .error .index) := by
+  obtain ⟨a, b, c⟩ := pyIndex_spec arr.length i
+  refine ⟨a, b, c, ?_, ?_⟩
+  · intro k hk hlt
+    exact ⟨arrayGet_plain.1 k hk hlt, arraySet_plain.1 k hk⟩
+  · intro hk
+    exact ⟨arrayGet_plain.2 hk, arraySet_plain.2 hk⟩
+
+section sound
+variable {p : ℕ} [Fact p.Prime] {w : Wire → Int}
+
+/-- **an out-of-range index cannot be proven**: any assignment `w` (with `w one = 1`) satisfying
+the constraints emitted by the selector computation of `Array.__getitem__/__setitem__` evaluates the
+index to some `i < n`; if moreover `n ≤ p` the selectors are the indicator vector of `i` -/
+theorem C15_oob_unsat {it : LinComb} {n : Nat} {s s' : St} {ixs : List LinComb} (hp : s.p = p)
+    (hg : s.guard = none) (hone : s.one = oneSafe) (hit : it.lc.WF) (h1 : w .one = 1)
+    (h : arrayIxs it n s = .ok (ixs, s')) (hw : NewSat s s' w) :
+    ∃ i : Nat, i < n ∧ ev p w it.lc = (i : ZMod p) ∧
+      (n ≤ p → ∀ (k : Nat) (hk : k < ixs.length), ev p w ixs[k].lc = if k = i then 1 else 0) :=
+  arrayIxs_sound hp hg hone hit h1 h hw
+
+/-- **the value read is the indexed element, in-circuit** (arrays of `LinComb`s) -/
+theorem C15_read_sound {arr : List Val} {it : LinComb} {r : Val} {s s' : St} (hp : s.p = p)
+    (hg : s.guard = none) (hone : s.one = oneSafe) (hit : it.lc.WF) (harr : ∀ v ∈ arr, IsLcWF v)
+    (hn : arr.length ≤ p) (h1 : w .one = 1)
+    (h : arrayGet arr (.lc it) s = .ok (r, s')) (hw : NewSat s s' w) :
+    ∃ (i : Nat) (hi : i < arr.length) (y : LinComb), ev p w it.lc = (i : ZMod p) ∧ r = .lc y ∧
+      ev p w y.lc = ev p w arr[i].lcOf :=
+  arrayGet_sound hp hg hone hit harr hn h1 h hw
+
+end sound
+
+/-- **obliviousness**: two accesses to arrays of the same shape with indices of the same shape (any
+values), from states of the same shape, emit the same constraints and return values of the same shape -/
+theorem C15_oblivious {arr1 arr2 : List Val} (harr : Forall2 ValRel arr1 arr2) {it1 it2 : Val}
+    (hit : ValRel it1 it2) {v1 v2 : Val} (hv : ValRel v1 v2) :
+    Obl ValRel (arrayGet arr1 it1) (arrayGet arr2 it2) ∧
+    Obl (Forall2 ValRel) (arraySet arr1 it1 v1) (arraySet arr2 it2 v2) :=
+  ⟨arrayGet_obl harr hit, arraySet_obl harr hit hv⟩
+
+/-! ## non-vacuity: a 3-element array `[10, PrivVal(20), PrivVal(30)]`, secret index 1 -/
+
+def exArr : M (List Val × LinComb) := do
+  let a ← privVal 20
+  let b ← privVal 30
+  let i ← privVal 1
+  pure ([.int 10, .lc a, .lc b], i)
+
+/-- read at the secret index: value 20; 6 selector constraints + 1 sum constraint + 2 products -/
+example : (match (do let (arr, i) ← exArr; arrayGet arr (.lc i)) (St.init 97 8 8) with
+    | .ok (r, s1) => r.ival == 20 && s1.cons.length == 9 &&
+        s1.cons.all (fun c => (LC.eval s1.assign c.1 * LC.eval s1.assign c.2.1 - LC.eval s1.assign c.2.2) % 97 == 0)
+    | _ => false) = true := by decide +kernel
+
+/-- write 77 at the secret index: values become [10, 77, 30] -/
+example : (match (do let (arr, i) ← exArr; arraySet arr (.lc i) (.int 77)) (St.init 97 8 8) with
+    | .ok (arr', s1) => arr'.map Val.ival == [10, 77, 30] &&
+        s1.cons.all (fun c => (LC.eval s1.assign c.1 * LC.eval s1.assign c.2.1 - LC.eval s1.assign c.2.2) % 97 == 0)
+    | _ => false) = true := by decide +kernel
+
+/-- out-of-range secret index 3 raises IndexError -/
+example : (match (do let (arr, _) ← exArr; let j ← privVal 3; arrayGet arr (.lc j)) (St.init 97 8 8) with
+    | .error .index => true | _ => false) = true := by decide +kernel
+
+/-- with error checks off the out-of-range access completes but the recorded witness violates the
+emitted constraints (the selectors sum to 0, not 1) -/
+example : (match (do let (arr, _) ← exArr; let j ← privVal 3; arrayGet arr (.lc j))
+      { St.init 97 8 8 with ignoreErrors := true } with
+    | .ok (_, s1) => !(s1.cons.all (fun c =>
+        (LC.eval s1.assign c.1 * LC.eval s1.assign c.2.1 - LC.eval s1.assign c.2.2) % 97 == 0))
+    | _ => false) = true := by decide +kernel
+
 end Pysnark
